@@ -39,7 +39,8 @@ def run(ctx):
                          oracle_aspects={"terminated", "value", "status"},
                          corr_aspects={"verdict", "mvalue", "mseq", "threads", "expect"},
                          nontrivial=key, timeout=3000)
-    r["rule"] = ("8 entry points (par_map_fold, _with, par_map_fold2, _with, par_map_fold_ord, _with, par_node_apply, "
+    r["rule"] = ("CLI commands build dcf / analyze codes / run llp with --num-threads 1,2,4 on a 3000-node graph, "
+                 "granularity 100 (30 chunks); 8 entry points (par_map_fold, _with, par_map_fold2, _with, par_map_fold_ord, _with, par_node_apply, "
                  "par_apply) x lengths {0,1,2,3,2T-1,2T,2T+1,1000,(100000)} x pool sizes {1,2,3,4,8,16} x call sites "
                  "{outside any pool, inside install of a custom pool, task of a custom pool, scope task of the global "
                  "pool, detached task of the global pool} x global pool sizes {1,2,16}; each run in a child process "
